@@ -2,7 +2,10 @@ package main
 
 import "strings"
 
-func init() { register("C18", runC18) }
+func init() {
+	register("C18", runC18)
+	rsExtra["C18"] = rsFineFamily
+}
 
 func runC18(cfg *runCfg) error {
 	n := 120
